@@ -47,7 +47,7 @@ ASSUMPTIONS = [
     'turns them into _error replies), exceptions of initialize/synchronize are violations',
     'contention: forked children use the real os module; CLOCK_MONOTONIC orders calls of different processes',
 ]
-BUDGET = {'quick': (64, 40.0), 'thorough': (700, 300.0)}
+BUDGET = {'quick': (56, 38.0), 'thorough': (520, 285.0)}
 REQUIRED_REACH = {'*': [
     'ops_vip_create', 'ops_rule_create', 'ops_spec_create', 'ops_vip_gc', 'ops_rule_gc', 'ops_spec_gc',
     'create_conflicts', 'release_by_nonowner', 'release_by_owner', 'gc_mixed',
